@@ -10,13 +10,13 @@ TENSORS = ('PlanarVector', 'Vector', 'SymmetricDyad', 'Dyad')
 
 
 class Quant:
-    def __init__(self, check, types=('double',), other_types=('float',), conv=True, hash_=True):
+    def __init__(self, check, types=('double',), other_types=('float',), conv=True, hash_=True, members=False):
         wd = os.path.join(check.work, 'ast')
         self.clang_errors = []
         self.class_list = tu.class_templates()
-        p = astload.dump(tu.quantities_tu(tuple(types), tuple(other_types), classes=self.class_list, hash_=hash_, conv=conv),
+        p = astload.dump(tu.quantities_tu(tuple(types), tuple(other_types), classes=self.class_list, hash_=hash_, conv=conv, members=members),
                          wd, 'quantities', tolerate=self.clang_errors)
-        txt = tu.quantities_tu(tuple(types), tuple(other_types), classes=self.class_list, hash_=hash_, conv=conv)
+        txt = tu.quantities_tu(tuple(types), tuple(other_types), classes=self.class_list, hash_=hash_, conv=conv, members=members)
         self.ast = astload.Ast().load(p)
         os.remove(p)
         if hash_:
